@@ -63,10 +63,12 @@ def standin_simulate_grid(tier, seed):
     if tier == "quick":
         grid = grid[::3]
     seeds = [seed, seed + 7] if tier == "quick" else [seed + k for k in range(6)]
-    grid = [(n, mean, std, spacing, 0.0) for n, mean, std, spacing in grid] + [(3, 2.0, 0.3, "absent", 80.0), (3, 2.0, 0.3, "absent", -60.0)]
-    for (m, _), (n, mean, std, spacing, first), sd in itertools.product(models, grid, seeds):
+    grid = [(n, mean, std, spacing, 0.0, (4.0, 1.0)) for n, mean, std, spacing in grid] + [(3, 2.0, 0.3, "absent", 80.0, (4.0, 1.0)), (3, 2.0, 0.3, "absent", -60.0, (4.0, 1.0))]
+    # cross-sectional and very short follow-ups (valid designs: every individual keeps its baseline visit)
+    grid += [(1, 1.0, 0.0, "absent", 0.0, (0.0, 0.0)), (4, 1.0, 0.2, "absent", 0.0, (0.0, 0.0)), (3, 2.0, 0.0, "absent", 0.0, (0.3, 0.0)), (3, 1.0, 0.1, 0.1, 0.0, (0.5, 2.0))]
+    for (m, _), (n, mean, std, spacing, first, (fu_mean, fu_std)), sd in itertools.product(models, grid, seeds):
         vp = dict(visit_type="random", patient_number=n, first_visit_mean=first, first_visit_std=0.4,
-                  time_follow_up_mean=4.0, time_follow_up_std=1.0, distance_visit_mean=mean, distance_visit_std=std)
+                  time_follow_up_mean=fu_mean, time_follow_up_std=fu_std, distance_visit_mean=mean, distance_visit_std=std)
         if spacing != "absent":
             vp["min_spacing_between_visits"] = spacing
         key = f"random design {vp} seed={sd} noise={m.parameters['noise_std'].numel()}"
@@ -77,7 +79,7 @@ def standin_simulate_grid(tier, seed):
             violations.append(dict(key=f"{key}: an accepted design did not run to completion: {type(e).__name__}: {str(e)[:120]}"))
             break
         evals += 1
-        distinct.add((n, mean, std, spacing, first, sd))
+        distinct.add((n, mean, std, spacing, first, fu_mean, fu_std, sd))
         check_result(res, feats, range(n), key, violations, step=documented_step(spacing))
         if len(samples) < 2:
             samples.append(vp)
